@@ -31,8 +31,41 @@ TRUSTED_BASE = [
 ASSUMPTIONS = [
     "type convertibility of non-scalar arguments and pointer arithmetic rules are outside the model (fixed rule table x embeddings, tests)",
     "the goto rule binds a goto to the nearest enclosing already-declared label, else the nearest enclosing later-declared one",
+    "rule_labels (the `_partial` statement) uses Lua 5.4's label rule (a label may not repeat a VISIBLE label); the property's literal reading (unique per function, no goto out of a defer block) is rule_labels_full, refuted",
+    "known findings: two exact witnesses + two class keys (code site named) for programs breaking ONLY a refuted label clause that the mechanism model of the unchanged analyzer also accepts; anything else is a VIOLATION",
     "correspondence is differential testing over generated programs x embeddings, not a proof that model = code",
 ]
+
+THEOREM_CLASSES = {
+    "C05_analyzer_sound_refuted": "refutation",
+    "C05_analyzer_sound_partial": "main",
+    "C05_labels_goto_defer_sound_refuted": "refutation",
+    "C05_labels_unique_per_function_refuted": "refutation",
+    "C05_flow_sound": "main",
+    "C05_names_sound": "main",
+    "C05_labels_goto_defer_sound_partial": "main",
+    "C05_switch_case_values_sound": "main",
+    "C05_consts_sound": "main",
+    "C05_analyzer_complete_flow": "corollary",
+    "C05_analyzer_complete_names": "corollary",
+    "C05_inrange_is_representability": "corollary",
+}
+UNPROVED = [
+    "wrongly typed arguments (argument convertibility): rule table rows only (tests)",
+    "arithmetic on pointers or incompatible types: rule table rows only (tests); the mini-AST has no typed expressions",
+    "constants that do not fit: integer -> integer constants over the scraped IntegralType table only; float and enum constants are not covered",
+    "constant index on an array of length 0 (`[0]T`): the rule follows the compiler's convention and accepts every non-negative index",
+    "`error located at the offending construct`: line + message class are compared by the correspondence, no theorem",
+    "`produces no executable`: the analyzer's exit status and diagnostic are used, a full compile is not run on rejects",
+    "`wherever the construct appears` (polymorphic, generic, preprocessor code): six embeddings and three interpolation styles by testing; the model only has the forced-symbol constructors UseF / AssignF",
+    "labels: `unique per function` and `no goto leaves a defer block` are REFUTED for the unchanged analyzer (witnesses replayed every run); completeness of the goto/defer check does not hold (deliberately conservative) and is not claimed",
+    "the multi-pass type resolution of the analyzer is modelled only as the two passes of goto resolution",
+]
+MANIFEST_ENTRY = {
+    "text": "proof, partial: Coq theorems over an executable model of the analyzer's devices (all programs of the mini-AST, any nesting depth): whatever the analyzer accepts obeys the rules for const/comptime assignment, undeclared names, capture of a local of an enclosing function (also through preprocessor-interpolated symbols), call arity, integer constant range, constant array index, break/continue/fallthrough placement, duplicate case values, duplicate VISIBLE labels and gotos crossing an executed/skipped defer; completeness for control flow and names. Full strength is refuted for two label clauses (label repeated in a function when not visible; goto leaving a defer block - open finding with proposed repair). Argument types, pointer/incompatible arithmetic, error position, `no executable` and the polymorphic/generic/preprocessor contexts rest on differential testing only (rule table x embeddings).",
+    "note": "trusted: Coq 8.16.1 kernel; the hand-written model tied to /repo by Gen.v scrapes (analyzer.lua visitors.Switch/Id/Break/Continue, typedefs.lua) and by differential correspondence (accept/reject, line, message class) over 6 embeddings, which is testing; extraction (ExtrOcamlBasic), OCaml driver, Python generator/printer; depends on checks/C05.py only (no cross-property files)",
+    "technique": "machine-checked proof in Coq over an executable model + extracted-model/implementation correspondence",
+}
 
 TYPE_NAMES = []
 
@@ -88,7 +121,22 @@ def gen(ctx):
     return {"upvalue_check_covers_forced_symbols": forced_checked, "break_continue_check_defer_block": jump, "switchcase_index_expr": idx_expr, "case_loop_var": m1.group(1), "int_types": types}
 
 
-WITNESSES = []      # programs on which the unchanged analyzer violates the property (none at present)
+# programs on which the unchanged analyzer violates the FULL-strength rule (rule_ok_full), replayed in every run
+# (quick and thorough), keys are exact.  (key, body, what)
+WITNESSES = [
+    ("goto-leaves-defer: ::l1:: defer goto l1 end",
+     [('label', 1), ('defer', [('goto', 1)])],
+     "a backward goto from inside a defer block to a label of an enclosing block is accepted (visitors.Goto: the has_defer flag of the defer block's own scope is not yet set, and there is no check_jump_out_of_defer walk); the emitted C jumps from the clean-up code back into the function body"),
+    ("label-repeated-in-function: do ::l1:: end ::l1::",
+     [('do', [('label', 1)]), ('label', 1)],
+     "a label repeated in one function is accepted when the earlier one is not visible (Scope:find_label only walks up the enclosing chain; this is also Lua 5.4's rule; the C label names are made unique, no repair proposed)"),
+]
+# Any other accepted program that breaks ONLY one of these two full-strength clauses, and that the mechanism
+# model of the unchanged analyzer also accepts, is reported under the class key of the defect's code site:
+CLASS_KEYS = {
+    "goto": "goto-leaves-defer@analyzer.lua visitors.Goto (no walk refusing is_deferblock scopes)",
+    "uniq": "label-repeated-not-visible@analyzer.lua visitors.Label / Scope:find_label (enclosing chain only)",
+}
 
 
 # fixed rule table (outside the mini-AST; tests, not proof): (key, prelude lines, offending line).
@@ -243,6 +291,7 @@ def correspond(ctx):
                           detail={"source_file": pth, "source": vlib.read(pth), "analyzer": res,
                                   "replay": "nelua --analyze %s" % pth})
 
+    n_full_only = 0
     dist = {}
     kinds = {}
     n_acc = n_rej = 0
@@ -274,7 +323,19 @@ def correspond(ctx):
         if not rule_ok:
             nontrivial.add(model_lines[srcs.index(src)] if False else mline + emb)
         size = len(parts[0]) + len(src)
-        if impl_ok and not rule_ok:
+        full_ok = rules[6] == "1"
+        if impl_ok and rule_ok and not full_ok:
+            n_full_only += 1
+            if key:
+                k = key
+            elif model_ok and rules[8] == "0":
+                k = CLASS_KEYS["goto"]
+            elif model_ok and rules[7] == "0":
+                k = CLASS_KEYS["uniq"]
+            else:
+                k = "prog:%s@%s" % (body_key(body), emb)
+            oracle_fail.append((len(repr(body)), k, src, emb, rules, offs))
+        elif impl_ok and not rule_ok:
             k = key or "prog:%s@%s" % (body_key(body), emb)
             oracle_fail.append((len(repr(body)), k, src, emb, rules, offs))
         elif impl_ok != model_ok:
@@ -300,7 +361,7 @@ def correspond(ctx):
             continue
         shown += 1
         ctx.violation(k, "oracle",
-                      "a program that breaks a static rule (rule_ok flow/names/labels/consts/switch = %s) is accepted by `nelua --analyze` in embedding %s: %s" % (" ".join(rules[1:]), emb, src),
+                      "a program that breaks a static rule (rule_ok flow/names/labels/consts/switch | full labels-unique goto-stays-in-defer = %s) is accepted by `nelua --analyze` in embedding %s: %s" % (" ".join(rules[1:]), emb, src),
                       detail={"source_file": src, "source": vlib.read(src), "embedding": emb, "rule_verdicts": rules,
                               "model_offenders": offs, "replay": "nelua --analyze %s  (exit status 0 = accepted)" % src})
     for (sz, src, emb, res, offs, stream) in sorted(mism)[:4]:
@@ -324,15 +385,14 @@ def correspond(ctx):
         "samples": [model_lines[0][:200], model_lines[len(cases) // 2][:200], model_lines[-1][:200]],
         "distribution": {"streams": dist, "embeddings": per_emb, "accepted": n_acc, "rejected": n_rej, "diagnostic_kinds": kinds},
         "oracle_failures": len(oracle_fail),
+        "accepted_breaking_only_the_full_label_rules": n_full_only,
         "verdict_mismatches": len(mism),
         "position_mismatches": len(posmiss),
         "crashes": len(crashes),
         "rule_table_entries": len(table_cases),
         "rule_table_failures": table_fail,
         "traces_validated_against_impl": len(cases),
-        "unproved": ["completeness of the label/goto/defer checks does not hold (the has_defer test is deliberately conservative, see Proofs.v labels_conservative) and is not claimed",
-                     "argument type convertibility for non-scalar types and pointer arithmetic rules are not in the model",
-                     "a full compile confirming that no binary is produced on rejects is not run (the analyzer's exit status and diagnostic are used)"],
+
     }
 
 
